@@ -62,15 +62,19 @@ Theorem C12_atomic_save_unordered_metadata_refuted :
       (crash_scn_gen (code Json) c_main_only TOld TNew TNext TSb TSt 1 None (crash_fs keep l) e_json e_json 1).
 Proof. exact unordered_metadata_refuted. Qed.
 
-(* non-vacuity: both outcomes occur *)
-Example C12_example_old :
-  co_loaded (crash_scn (code Json) c_main_only TOld TNew TNext TSb TSt 3 10 0 0 LoseAll e_json e_json 1) = LOk [TOld].
+(* non-vacuity: both outcomes occur (old with the complete new temp file left beside it; new with the
+   old state still in the backup), and losing the last directory operation turns new into old *)
+Example C12_example_old : exists i,
+  let o := crash_scn (code Json) c_main_only TOld TNew TNext TSb TSt 3 i 0 0 LoseAll e_json e_json 1 in
+  co_loaded o = LOk [TOld] /\ co_cfg o = Some (mkCfg true None (Some KGood)).
 Proof. exact crash_example_old. Qed.
-Example C12_example_new :
-  co_loaded (crash_scn (code Json) c_main_only TOld TNew TNext TSb TSt 3 11 0 0 LoseAll e_json e_json 1) = LOk [TNew].
+Example C12_example_new : exists i,
+  let o := crash_scn (code Json) c_main_only TOld TNew TNext TSb TSt 3 i 0 0 LoseAll e_json e_json 1 in
+  co_loaded o = LOk [TNew] /\ co_cfg o = Some (mkCfg true (Some KGood) None).
 Proof. exact crash_example_new. Qed.
-Example C12_example_lost_rename :
-  co_loaded (crash_scn (code Json) c_main_only TOld TNew TNext TSb TSt 3 11 0 1 LoseAll e_json e_json 1) = LOk [TOld].
+Example C12_example_lost_rename : exists i,
+  co_loaded (crash_scn (code Json) c_main_only TOld TNew TNext TSb TSt 3 i 0 0 LoseAll e_json e_json 1) = LOk [TNew] /\
+  co_loaded (crash_scn (code Json) c_main_only TOld TNew TNext TSb TSt 3 i 0 1 LoseAll e_json e_json 1) = LOk [TOld].
 Proof. exact crash_example_lost_rename. Qed.
 Example C12_example_premises : cfg_valid c_main_only = true /\ In e_json (damage_of Json).
 Proof. split; [reflexivity | left; reflexivity]. Qed.
